@@ -10,6 +10,7 @@ import (
 	"github.com/scigolib/hdf5/internal/zzverif/ev"
 	"github.com/scigolib/hdf5/internal/zzverif/hx"
 	"github.com/scigolib/hdf5/internal/zzverif/props"
+	"github.com/scigolib/hdf5/internal/zzverif/specdec"
 )
 
 func main() {
@@ -38,6 +39,50 @@ func main() {
 		fmt.Printf("open: %+v\n", d.OpenRes)
 		for _, o := range d.Objects {
 			fmt.Println(o.Logical())
+		}
+		return
+	}
+	// debugging aid: vcheck specdec <file.h5> prints what the independent decoder finds
+	if len(os.Args) >= 3 && os.Args[1] == "specdec" {
+		for _, mode := range []string{"strict", "tolerant"} {
+			f, err := os.Open(os.Args[2])
+			if err != nil {
+				fmt.Println(err)
+				os.Exit(2)
+			}
+			st, _ := f.Stat()
+			opt := specdec.Options{}
+			if mode == "tolerant" {
+				opt.Tolerate = specdec.AllTolerances()
+			}
+			sf, err := specdec.Decode(f, st.Size(), opt)
+			if err != nil {
+				fmt.Println(mode, "decode error:", err)
+				continue
+			}
+			keys := map[string]int{}
+			for _, is := range append(sf.Issues, sf.CheckExtents()...) {
+				keys[is.Key]++
+			}
+			fmt.Println("==", mode, "objects:", len(sf.Objects), "extents:", len(sf.Extents), "fields:", len(sf.Fields), "tolerances used:", sf.TolerancesUsed)
+			for k, n := range keys {
+				fmt.Printf("   %-45s %d\n", k, n)
+			}
+			if mode == "tolerant" {
+				sf.Walk(func(path string, o *specdec.Object, l *specdec.Link) {
+					if o == nil {
+						fmt.Printf("   %s -> link %s\n", path, l.Kind)
+						return
+					}
+					extra := ""
+					if o.Kind == "dataset" {
+						d, err := sf.ReadData(o)
+						extra = fmt.Sprintf(" dims=%v class=%d size=%d data=%d bytes err=%v", o.Space.Dims, o.Type.Class, o.Type.Size, len(d), err)
+					}
+					fmt.Printf("   %s %s attrs=%d%s\n", path, o.Kind, len(o.Attrs), extra)
+				})
+			}
+			f.Close()
 		}
 		return
 	}
